@@ -19,16 +19,43 @@ def rule_module(prop):
 
 
 def run_property(prop, tier, repo=None):
+  """Runs all rules of a property. A rule function that cannot decide (AnalysisError) does not
+  hide the verdicts of the other rules: it is recorded, disabled, and the module is run again.
+  Exit code: 1 if any rule found a violation, else 2 if any rule could not decide, else 0."""
   mod = rule_module(prop)
   if mod is None:
     print("ANALYSIS-ERROR property=%s no rules implemented (fail-closed)" % prop)
     return 2
+  errors = []
+  patched = {}
   try:
     repo = repo or Repo()
-    run = Run(prop, tier, repo, level=getattr(mod, "LEVEL", "other"))
-    run.explanation = getattr(mod, "EXPLANATION", "")
-    mod.check(run, repo, tier)
-    return run.finish()
+    while True:
+      run = Run(prop, tier, repo, level=getattr(mod, "LEVEL", "other"))
+      run.explanation = getattr(mod, "EXPLANATION", "")
+      try:
+        mod.check(run, repo, tier)
+        break
+      except AnalysisError as e:
+        name = _failing_rule_function(mod, e)
+        errors.append((name, str(e)))
+        if name is None or name in patched or len(patched) > 12:
+          run = None
+          break
+        patched[name] = getattr(mod, name)
+        setattr(mod, name, lambda *a, **k: None)
+    for (name, msg) in errors:
+      print("ANALYSIS-ERROR property=%s %s%s" % (prop, ("[%s] " % name) if name else "", msg))
+    if run is None:
+      return 2
+    try:
+      rc = run.finish(floors=not errors)
+    except AnalysisError as e:
+      print("ANALYSIS-ERROR property=%s %s" % (prop, e))
+      return 2
+    if rc == 1:
+      return 1
+    return 2 if errors else rc
   except AnalysisError as e:
     print("ANALYSIS-ERROR property=%s %s" % (prop, e))
     return 2
@@ -36,6 +63,26 @@ def run_property(prop, tier, repo=None):
     traceback.print_exc()
     print("ANALYSIS-ERROR property=%s internal checker error (see traceback)" % prop)
     return 2
+  finally:
+    for name, f in patched.items():
+      setattr(mod, name, f)
+
+
+def _failing_rule_function(mod, exc):
+  """Name of the module-level function of `mod` called from mod.check in whose dynamic extent
+  the AnalysisError was raised."""
+  tb = exc.__traceback__
+  frames = []
+  while tb is not None:
+    frames.append(tb.tb_frame)
+    tb = tb.tb_next
+  for i, fr in enumerate(frames):
+    if fr.f_code is getattr(mod.check, "__code__", None) and i + 1 < len(frames):
+      nxt = frames[i + 1]
+      name = nxt.f_code.co_name
+      if nxt.f_globals.get("__name__") == mod.__name__ and callable(getattr(mod, name, None)):
+        return name
+  return None
 
 
 def explain(path):
